@@ -201,6 +201,7 @@ Definition dempty := mkD [] [].
 Definition hook (d : vfields) (S : dstate) : option (value * dstate) :=
   match fget "cirq_type" d with
   | None => Some (VDict d, S)
+  | Some VNull => Some (VDict d, S)      (* d.get('cirq_type') is None: a plain dict *)
   | Some (VStr t) =>
       if String.eqb t "VAL" then
         match fget "val" d, fget "key" d with
